@@ -3,6 +3,8 @@
 //! Stand-ins: `vcoll::BTreeMap` (RoutingTable.buckets), `vcoll::HashSet` (via ClosestNodes).
 //! @needs: closest_nodes
 use super::*;
+#[allow(unused_imports)]
+use crate::verif_env::k as kani;
 use crate::common::kani_h_closest_nodes::in_order;
 use crate::verif_env::clock;
 use std::net::SocketAddrV4;
